@@ -554,7 +554,7 @@ func init() {
 	fw.Register(&fw.Check{
 		ID:    "C18",
 		Level: "exploration",
-		Cases: func(tier string) int { return tierN(tier, 480, 30000) },
+		Cases: func(tier string) int { return tierN(tier, 480, 16000) },
 		Rule: "case = 6 (quick) / 10 (thorough) random programs of 40-120 operations each: Get / Has / Set / Delete / rejected writes (empty or nil key, nil value, empty non-nil iterator bounds) / Iterator and ReverseIterator over bounds equal to, between and outside stored keys, nil, inverted / batch life cycle (Set, Delete, invisibility before Write, Write or WriteSync, reuse after write, close without write) over keys of length 1-4 from the alphabet {00,01,61,FE,FF}; every program runs on MemDB, GoLevelDB, PrefixDB(MemDB), PrefixDB(GoLevelDB) and PrefixDB(PrefixDB(MemDB)) with prefixes from {FF, FFFF, 01FF, 61, 00, 6100FF, FEFFFF} (prefix slices with spare capacity) while the parent store also holds sentinel keys just below, at and just above the prefix range (incl. the carry case of prefixes ending in FF). " +
 			"Oracle: a sorted-map model - every point read, every iteration (exact keys, order, values) and the final contents must agree on every backend; parent stores of prefixed views must hold exactly prefix+model keys plus the untouched sentinels. 1 case in 16 additionally runs a concurrent snapshot-iterator reader against 300 three-key batch writes per backend (a half-applied batch is a violation). " +
 			"distinct = case index (programs are PRNG-determined); non-trivial = the program contained >=1 written batch, >=1 iterator with a non-nil bound and >=1 delete.",
